@@ -5,9 +5,10 @@ index order, or "?" if any element is unmeasured."""
 import re, os
 from tools import cxx2c
 from tools.cxx2c import Lower, Unsupported, kids, qt, qt_sugar, strip, strip_parens, callee_name, norm_type, walk
+from tools.cxx2c import REPO as _REPO
 
 NAME = 'TRK'
-SRC = '/repo/src/bloch/runtime/runtime_evaluator.cpp'
+SRC = _REPO + '/src/bloch/runtime/runtime_evaluator.cpp'
 NAMESPACE = 'bloch::runtime'
 FUNCS = ['recordTrackedValue', 'endScope']
 AST_FILTER = ['RuntimeEvaluator::recordTrackedValue', 'RuntimeEvaluator::endScope', 'bloch::runtime::Value']
